@@ -51,6 +51,7 @@ let parse_obj () : obj =
 let parse_src () : source =
   match next () with
   | "none" -> SrcNone
+  | "url" -> SrcURL
   | "sql" -> let n = next_int () in SrcSQL (times n parse_mstmt)
   | "dir" -> SrcDir (parse_dir ())
   | "hcl" ->
@@ -64,6 +65,8 @@ let parse_src () : source =
 
 let b2s b = if b then "1" else "0"
 
+let parse_bits () : bool list = let n = next_int () in times n (fun () -> next () = "1")
+
 let () =
   (try
     while true do
@@ -72,24 +75,27 @@ let () =
         toks := Array.of_list (Stdlib.List.filter (fun s -> s <> "") (String.split_on_char ' ' line));
         pos := 0;
         let id = next () in
-        let norm = next () = "1" in
+        let norm = match next () with "0" -> NoNorm | "r" -> NormRealm | "s" -> NormSchema | s -> failwith ("norm " ^ s) in
         let cmdname = next () in
         let latest = next_int () in
         let changes = next () = "1" in
         let cmd = match cmdname with
           | "validate" -> CValidate | "lint" -> CLint (nat_of_int latest) | "diff" -> CDiff
-          | "sdiff" -> CSchemaDiff | "sapply" -> CSchemaApply | s -> failwith ("cmd " ^ s) in
+          | "sdiff" -> CSchemaDiff | "sapply" -> CSchemaApply | "sinspect" -> CSchemaInspect
+          | "checkpoint" -> CCheckpoint | s -> failwith ("cmd " ^ s) in
+        let fs = parse_bits () in
+        let rs = parse_bits () in
         let nobj = next_int () in
         let d = times nobj parse_obj in
         let dir = parse_dir () in
         let from = parse_src () in
         let to_ = parse_src () in
-        let (((o, same), empty), dirw) = observe norm cmd dir from to_ changes d in
+        let (((o, same), empty), dirw) = observe norm cmd dir from to_ changes fs rs d in
         (* markers are 100*script+k; directory files are scripts 1..n.  DevLoader.base
            reports a failing statement of a base file (not one of the latest N) by file only *)
         let nfiles = Stdlib.List.length dir in
         let os = match o with
-          | OOk -> "ok" | ORefused -> "refused"
+          | OOk -> "ok" | ORefused -> "refused" | ORestoreFail -> "rfail"
           | OFail m ->
             let m = int_of_nat m in
             let f = m / 100 in
